@@ -189,6 +189,15 @@ theorem emitsChild_trees {M : NsMap} {rec : Bool → QN → Val → Tree} {var :
       | cons a l =>
         have := hys a (by simp)
         cases a <;> simp [Val.isArray] at this <;> simp [itemsN, ht]
+    | seqItem ht hl hy =>
+      cases x with
+      | none => simp [emitsChild] at h; simp [itemsN, h]
+      | list xs => simp [Val.isArray] at hy
+      | prim p => simp [itemsN]
+      | obj c fs => simp [itemsN]
+      | any q t tl a cs => simp [itemsN]
+      | derived q v t => simp [itemsN]
+      | attrs a => simp [itemsN]
     | tokLists yss ht hl hyss =>
       cases yss with
       | nil => simp [emitsChild, hw, ht] at h; simp [itemsN, ht, h]
@@ -213,7 +222,7 @@ theorem body_genN (e : BEnv) (Γ : Ctx) (cfg : SerCfg) (M : NsMap) (ns : Option 
     (rec : Bool → QN → Val → Tree) {m : XmlMeta} (chunks : List (XmlVar × Val)) (f : Nat)
     (h : ∀ c ∈ chunks, ElemFactsN m c.1 ∧ Shape c.1 c.2 ∧ (c.2 ≠ .none ∨ c.1.nillable = true) ∧
       ∀ y ∈ itemsN c.1 c.2, ∃ evs,
-        itemGen e Γ cfg c.1 ns (if c.1.listElement then f else f + 1) y = .ok evs ∧
+        itemGen e Γ cfg c.1 ns (chunkFuel c.2 f) y = .ok evs ∧
         SubW M (isDatatype Γ) evs (treeSax (itemTreeNN M rec c.1 y))) :
     ∃ body, chunks.mapM (genField e Γ cfg (f + 1) ns) = .ok body ∧
       BodyW M (isDatatype Γ) body.flatten
